@@ -112,7 +112,15 @@ static inline int sp_val_sign(struct smt_lin a, WIDE_t v)
 }
 /* the interval an integer difference expression k, c*x + k or c*(x - y) + k ranges over, as derived from the variable-level
  * distances:  x in [-D[x][0], D[0][x]],  x - y in [-D[x][y], D[y][x]];  ok = 0 for every other expression */
+#define SPQ_INF ((I_t)(CM_I_MAX / 2 - 1))   /* idl_theory::inf() at the job's integer width */
 struct sp_bounds { _Bool ok; WIDE_t lo; WIDE_t hi; };
+/* scale a variable-level bound (possibly +-inf()) by c and shift by k: an infinite bound stays infinite, with the sign of c */
+static inline WIDE_t sp_scale(WIDE_t b, WIDE_t c, WIDE_t k)
+{
+  if (b >= (WIDE_t)SPQ_INF) return c > 0 ? (WIDE_t)SPQ_INF : -(WIDE_t)SPQ_INF;
+  if (b <= -(WIDE_t)SPQ_INF) return c > 0 ? -(WIDE_t)SPQ_INF : (WIDE_t)SPQ_INF;
+  return c * b + k;
+}
 static inline struct sp_bounds sp_bounds_of(struct vec_vec_I D, struct smt_lin l)
 {
   struct sp_bounds r; r.ok = 0; r.lo = 0; r.hi = 0;
@@ -136,8 +144,8 @@ static inline struct sp_bounds sp_bounds_of(struct vec_vec_I D, struct smt_lin l
   else if (n == 2 && cx == -cy) { rlo = -(WIDE_t)D.e[x].e[y]; rhi = (WIDE_t)D.e[y].e[x]; }
   else return r;
   r.ok = 1;
-  r.lo = (cx > 0 ? cx * rlo : cx * rhi) + k;
-  r.hi = (cx > 0 ? cx * rhi : cx * rlo) + k;
+  r.lo = cx > 0 ? sp_scale(rlo, cx, k) : sp_scale(rhi, cx, k);
+  r.hi = cx > 0 ? sp_scale(rhi, cx, k) : sp_scale(rlo, cx, k);
   return r;
 }
 static inline _Bool sp_q_rec(struct vec_vec_I D)
@@ -152,6 +160,20 @@ static inline _Bool sp_D_within(struct vec_vec_I D, I_t m)
 {
   for (U_t i = 0; i < XT_NTP; i++)
     for (U_t j = 0; j < XT_NTP; j++) if (D.e[i].e[j] < -m || D.e[i].e[j] > m) return 0;
+  return 1;
+}
+static inline _Bool sp_D_shape_q(struct vec_vec_I D)
+{
+  if (D.n != XT_NTP) return 0;
+  for (U_t i = 0; i < XT_NTP; i++) if (D.e[i].n != XT_NTP) return 0;
+  return 1;
+}
+/* the same, but an off-diagonal entry may also be the "no constraint" sentinel inf() */
+static inline _Bool sp_D_within_or_inf(struct vec_vec_I D, I_t m)
+{
+  for (U_t i = 0; i < XT_NTP; i++)
+    for (U_t j = 0; j < XT_NTP; j++)
+      if (!(i != j && D.e[i].e[j] == SPQ_INF) && (D.e[i].e[j] < -m || D.e[i].e[j] > m)) return 0;
   return 1;
 }
 /* the negation of l (spec side), for distance(from, 0) == bounds(-from) */
@@ -186,8 +208,8 @@ static inline struct sp_bounds sp_bounds_of_diff(struct vec_vec_I D, struct smt_
   else if (n == 2 && cx == -cy) { rlo = -(WIDE_t)D.e[x].e[y]; rhi = (WIDE_t)D.e[y].e[x]; }
   else return r;
   r.ok = 1;
-  r.lo = (cx > 0 ? cx * rlo : cx * rhi) + k;
-  r.hi = (cx > 0 ? cx * rhi : cx * rlo) + k;
+  r.lo = cx > 0 ? sp_scale(rlo, cx, k) : sp_scale(rhi, cx, k);
+  r.hi = cx > 0 ? sp_scale(rhi, cx, k) : sp_scale(rlo, cx, k);
   return r;
 }
 #endif
